@@ -156,15 +156,23 @@ class SyncSource(object):
         return out
 
 
+def _bytes_exactly(v, what):
+    """The readers are documented to return bytes: not a bytearray / memoryview that merely compares equal (mutable,
+    unhashable, no .decode on a memoryview)."""
+    if type(v) is not bytes:
+        raise Violation('reader_result_type', '%s returned a %s (%r...), documented: bytes' % (what, type(v).__name__, bytes(v[:20]) if hasattr(v, '__getitem__') else v))
+    return v
+
+
 def sync_apply(reader, op):
     k = op[0]
     try:
         if k == 'read':
-            return ('ok', reader.read(op[1]))
+            return ('ok', _bytes_exactly(reader.read(op[1]), 'read(%r)' % (op[1],)))
         if k == 'peek':
-            return ('ok', reader.peek(op[1]))
+            return ('ok', _bytes_exactly(reader.peek(op[1]), 'peek(%r)' % (op[1],)))
         if k == 'read_until':
-            return ('ok', reader.read_until(op[1], op[2], op[3]))
+            return ('ok', _bytes_exactly(reader.read_until(op[1], op[2], op[3]), 'read_until%r' % (tuple(op[1:]),)))
         if k == 'pipe':
             b = io.BytesIO()
             reader.pipe(b)
@@ -180,7 +188,7 @@ def sync_apply(reader, op):
             reader.exhaust()
             return ('ok', None)
         if k == 'readline':
-            return ('ok', reader.readline(op[1]))
+            return ('ok', _bytes_exactly(reader.readline(op[1]), 'readline(%r)' % (op[1],)))
         if k == 'readlines':
             return ('ok', reader.readlines(op[1]))
     except DelimiterError:
@@ -203,13 +211,13 @@ async def async_apply(reader, op):
     k = op[0]
     try:
         if k == 'read':
-            return ('ok', await reader.read(op[1]))
+            return ('ok', _bytes_exactly(await reader.read(op[1]), 'read(%r)' % (op[1],)))
         if k == 'readall':
-            return ('ok', await reader.readall())
+            return ('ok', _bytes_exactly(await reader.readall(), 'readall()'))
         if k == 'peek':
-            return ('ok', await reader.peek(op[1]))
+            return ('ok', _bytes_exactly(await reader.peek(op[1]), 'peek(%r)' % (op[1],)))
         if k == 'read_until':
-            return ('ok', await reader.read_until(op[1], op[2], op[3]))
+            return ('ok', _bytes_exactly(await reader.read_until(op[1], op[2], op[3]), 'read_until%r' % (tuple(op[1:]),)))
         if k == 'pipe':
             s = _Sink()
             await reader.pipe(s)
